@@ -3,7 +3,7 @@
    regenerated from /repo's source on this run, decided by vm_compute. *)
 From Coq Require Import List ZArith String Bool.
 From Coq.Strings Require Import Byte.
-From LI Require Import Prelude Base SqliLex Xss Baseline Spec.TableSpec.
+From LI Require Import Prelude Base SqliLex Xss Baseline Spec.TableSpec Proofs.BaseFacts.
 Import ListNotations.
 
 Theorem C20_keywords_wellformed :
@@ -56,6 +56,48 @@ Proof.
   apply I. exact E.
 Qed.
 Print Assumptions C20_baseline_keywords.
+
+(* every key is reachable by the case-folding look-up of the lexers (searchKeyword),
+   written as listed and written in lower case; likewise every XSS name through
+   isBlackTag / isBlackAttr *)
+Theorem C20_keys_reachable :
+  forall k v, In (k, v) sql_keywords ->
+    search_keyword k = v /\ search_keyword (map lower_ascii k) = v.
+Proof.
+  intros k v H.
+  assert (E : forallb (fun kv => beq (search_keyword (fst kv)) (snd kv)
+                                 && beq (search_keyword (map lower_ascii (fst kv))) (snd kv)) sql_keywords = true)
+    by (vm_compute; reflexivity).
+  rewrite forallb_forall in E. specialize (E _ H). cbn [fst snd] in E.
+  apply andb_true_iff in E. destruct E as [E1 E2].
+  split; apply Proofs.BaseFacts.beq_eq; assumption.
+Qed.
+Print Assumptions C20_keys_reachable.
+
+Theorem C20_xss_names_reachable :
+  (forall t, In t black_tags -> is_black_tag t = true /\ is_black_tag (map lower_ascii t) = true) /\
+  (forall e, In e blacks -> is_black_attr (fst e) = snd e /\ is_black_attr (map lower_ascii (fst e)) = snd e) /\
+  (forall e, In e black_events ->
+     is_black_attr (bs "ON" ++ fst e) = snd e /\ is_black_attr (bs "on" ++ map lower_ascii (fst e)) = snd e).
+Proof.
+  split; [|split].
+  - intros t H.
+    assert (E : forallb (fun t => is_black_tag t && is_black_tag (map lower_ascii t)) black_tags = true)
+      by (vm_compute; reflexivity).
+    rewrite forallb_forall in E. specialize (E _ H). apply andb_true_iff in E. exact E.
+  - intros e H.
+    assert (E : forallb (fun e => (is_black_attr (fst e) =? snd e)%Z && (is_black_attr (map lower_ascii (fst e)) =? snd e)%Z) blacks = true)
+      by (vm_compute; reflexivity).
+    rewrite forallb_forall in E. specialize (E _ H). apply andb_true_iff in E. destruct E as [E1 E2].
+    split; apply Z.eqb_eq; assumption.
+  - intros e H.
+    assert (E : forallb (fun e => (is_black_attr (bs "ON" ++ fst e) =? snd e)%Z
+                                  && (is_black_attr (bs "on" ++ map lower_ascii (fst e)) =? snd e)%Z) black_events = true)
+      by (vm_compute; reflexivity).
+    rewrite forallb_forall in E. specialize (E _ H). apply andb_true_iff in E. destruct E as [E1 E2].
+    split; apply Z.eqb_eq; assumption.
+Qed.
+Print Assumptions C20_xss_names_reachable.
 
 (* non-vacuity: the tables are not empty and contain the entries one expects *)
 Example C20_nonvacuous :
